@@ -282,11 +282,6 @@ theorem fromTreeL_of_conv (conv : L → Option F) (tl : Tree L) (t : Tree F) (h 
       rw [hx] at h; simp only [Option.some.injEq] at h; subst h
       simp only [unmarshalL, unmarshal, foldl_of_convMembers conv ms y hx]
 
-/-- `Decode` on a text: RFC 8259 scan (total parser, literals kept), then the literal-level `json.Unmarshal` and
-`FromGeoJSON`; `none` = SyntaxError -/
-def decodeText (lp : List Char → Option L) (conv : L → Option F) (txt : List Char) : Option (Except Err (Geom F)) :=
-  (Json.parse lp txt).map (fromTreeL conv)
-
 section
 variable [DecidableEq F]
 
